@@ -28,7 +28,26 @@ for d in sorted(glob.glob('seeded/*/')):
     det = '; '.join(f"`{k}` ({' '.join(v)})" for k, v in m.get('detected_by', {}).items()) or '—'
     hist = m.get('history', '')
     out.append(f"| {m['id']} | {m.get('property','')} | {m.get('summary','')} | {m.get('needs_to_manifest','')} | {'yes' if m.get('detected_by_target_property_check') else 'NO'}{(' — ' + hist) if hist else ''} | {det} |")
+out.append("")
+out.append("### B.4 Behaviour-preserving refactorings (independent sub-agents) as negative controls\n")
+out.append("| patch | files touched | lines +/− | alarms at first measurement (violated + undecided keys) | alarms now | first-measurement keys |")
+out.append("|---|---|---|---|---|---|")
+first = json.load(open('benign/first_measurement.json')) if os.path.exists('benign/first_measurement.json') else {}
+def rkey(d):
+    m = re.search(r'R(\d+)', d); return int(m.group(1)) if m else 0
+for d in sorted(glob.glob('benign/R*/'), key=rkey):
+    bid = os.path.basename(d.rstrip('/'))
+    patch = open(d + 'patch.diff', errors='replace').read()
+    files = sorted(set(re.findall(r'^diff --git a/(\S+)', patch, re.M)))
+    plus = len(re.findall(r'^\+(?!\+\+)', patch, re.M)); minus = len(re.findall(r'^-(?!--)', patch, re.M))
+    st = json.load(open(d + 'status.json')) if os.path.exists(d + 'status.json') else {}
+    now = len(st.get('false_alarms', [])) + len(st.get('undecided', []))
+    f = first.get(bid)
+    fm = f"{len(f['false_alarms'])} + {len(f['undecided'])}" if f else '—'
+    keys = ', '.join(f"`{k}`" for k in (f['false_alarms'] + f['undecided'])) if f else ''
+    out.append(f"| {bid} | {' '.join(files)} | +{plus}/−{minus} | {fm} | {now} | {keys} |")
 txt = '\n'.join(out) + '\n'
+
 s = open('DESIGN.md').read()
 b, e = '<!-- BEGIN GENERATED -->', '<!-- END GENERATED -->'
 if b in s:
